@@ -30,6 +30,10 @@ codes! {
     Iter = "iter",
     // environment / clients
     Rehash = "rehash", Fork = "fork", DropTwin = "drop_twin",
+    // macro event of the scale shapes: n calls on the keys k, k+k2, k+2*k2, ... (k2 = stride, 0 = the same
+    // key every time); fam 0 = put (values v, v+1, ...), 1 = get, 2 = put then get, 3 = remove,
+    // 4 = put then get of the key put w calls earlier
+    Fill = "fill",
     // TinyLFU (k/k2 = key idents, xs = hashes or key idents, v = raw hash)
     TInc = "t_inc_hash", TIncKey = "t_inc_key", TIncKeys = "t_inc_keys", TIncHashes = "t_inc_hashes",
     TTryReset = "t_try_reset", TClear = "t_clear", TEst = "t_est_hash", TEstKey = "t_est_key",
@@ -176,6 +180,9 @@ pub fn resize_arg(n: i64) -> usize {
         -1 => usize::MAX,
         -2 => usize::MAX / 2 + 1,
         -3 => 1usize << 62,
+        -4 => (1u64 << 32) as usize,
+        -5 => ((1u64 << 40) + 3) as usize,
+        -6 => ((1u64 << 32) + 1) as usize,
         x if x < 0 => 0,
         x => x as usize,
     }
